@@ -54,7 +54,8 @@ type Case struct {
 	Root     int           `json:"root"`    // node the source reference points to
 	D0       []int         `json:"d0"`      // nodes pushed into the destination before the call (successor-closed)
 	K        int           `json:"k"`       // CopyGraphOptions.Concurrency as passed
-	Mode     string        `json:"mode"`    // g CopyGraph | t Copy into a Tagger | r Copy into a ReferencePusher
+	Mode     string        `json:"mode"`    // g CopyGraph | t Copy into a Tagger | r Copy into a ReferencePusher |
+	// x ExtendedCopyGraph | X ExtendedCopy (oracle only: the model's acceptor is per copyGraph root)
 	Src      string        `json:"src"`     // mem | oci | ocire | file | remote (remote.Repository over an in-process registry)
 	Dst      string        `json:"dst"`     // mem | oci | ocire | file | remote
 	RefFetch bool          `json:"reffetch"` // the source also implements registry.ReferenceFetcher
@@ -62,11 +63,17 @@ type Case struct {
 	DstRef   string        `json:"dstref"` // "" = blank
 	MapRoot  int           `json:"maproot"` // -1, or the node MapRoot maps the root to
 	Platform string        `json:"platform"` // "" or the architecture given to WithTargetPlatform
+	PlatVar  string        `json:"platvar"`  // optional Variant of the target platform ("" = none)
+	PlatFeat string        `json:"platfeat"` // optional single OSFeature of the target platform
 	FailCb   string        `json:"failcb"`  // "" or pre|post|skip : this callback fails ...
 	FailNode int           `json:"failnode"` // ... on this node
 	Seed     uint64        `json:"seed"`    // latency PRNG
 	GenSeed  uint64        `json:"genseed"` // generator seed (regenerates the case)
 	Mount    bool          `json:"mount"`    // the destination also implements registry.Mounter; MountFrom returns candidates
+	CbSet    string        `json:"cbset"`    // which of PreCopy PostCopy OnCopySkipped OnMounted MountFrom are set, 5 x 0|1 ("" = all set)
+	FindSucc bool          `json:"findsucc"` // FindSuccessors set (to a function calling content.Successors) instead of nil
+	Slow     bool          `json:"slow"`     // storage latencies of 0.2-2 ms (contention on the limiter)
+	Fast     bool          `json:"fast"`     // latencies are yields only (no sleeps): the small-scope enumeration
 	Sched    bool          `json:"sched"`    // run under testing/synctest with a PRNG-controlled scheduler
 	Thorough bool          `json:"thorough"` // generated with the thorough-tier size distribution
 }
@@ -94,6 +101,8 @@ type rec struct {
 	lmu    sync.Mutex
 	lat    *common.Rand
 	bytes  [][]byte // generator's bytes per node (what a successful mount makes available)
+	fast   bool
+	slow   bool
 	sched  *sched   // controlled schedules: every delay point parks until the scheduler releases it
 }
 
@@ -130,6 +139,13 @@ func (r *rec) delay() {
 	v := r.lat.Intn(12)
 	a := r.lat.Intn(64)
 	r.lmu.Unlock()
+	if r.fast && v >= 8 {
+		v = 4
+	}
+	if r.slow && v >= 6 {
+		time.Sleep(time.Duration(200+28*a) * time.Microsecond)
+		return
+	}
 	switch {
 	case v < 4:
 	case v < 8:
@@ -189,6 +205,13 @@ func (s *srcW) Exists(ctx context.Context, d ocispec.Descriptor) (bool, error) {
 
 func (s *srcW) Resolve(ctx context.Context, ref string) (ocispec.Descriptor, error) {
 	return s.under.Resolve(ctx, ref)
+}
+
+// srcWG additionally implements content.PredecessorFinder (ExtendedCopy needs a graph source).
+type srcWG struct{ *srcW }
+
+func (s srcWG) Predecessors(ctx context.Context, d ocispec.Descriptor) ([]ocispec.Descriptor, error) {
+	return s.under.(content.PredecessorFinder).Predecessors(ctx, d)
 }
 
 // srcWRef additionally implements registry.ReferenceFetcher (as remote repositories do).
@@ -417,6 +440,22 @@ type Result struct {
 	SetupErr error
 }
 
+// CbIsSet reports whether callback kind (pre post skip mounted mountfrom) is set in this case.
+func (c *Case) CbIsSet(kind string) bool {
+	i := map[string]int{"pre": 0, "post": 1, "skip": 2, "mounted": 3, "mountfrom": 4}[kind]
+	return len(c.CbSet) != 5 || c.CbSet[i] == '1'
+}
+
+// Mounting reports whether mountOrCopyNode can try to mount: Mounter destination and MountFrom set.
+func (c *Case) Mounting() bool { return c.Mount && c.CbIsSet("mountfrom") }
+
+func (c *Case) cbBits() string {
+	if len(c.CbSet) == 5 {
+		return c.CbSet
+	}
+	return "11111"
+}
+
 func (c *Case) EffRef() string {
 	if c.DstRef == "" {
 		return c.SrcRef
@@ -442,7 +481,7 @@ func expectedRoot(c *Case, g *dag.Graph) int {
 			return -1
 		}
 		for i, m := range ix.Manifests {
-			if m.Platform != nil && m.Platform.Architecture == c.Platform && m.Platform.OS == "linux" {
+			if m.Platform != nil && m.Platform.Architecture == c.Platform && m.Platform.OS == "linux" && c.PlatVar == "" && c.PlatFeat == "" {
 				return n.Succ[len(n.Succ)-len(ix.Manifests)+i]
 			}
 		}
@@ -587,7 +626,7 @@ func Execute(c *Case) *Result {
 			return nil
 		}
 	}
-	r := &rec{idx: map[dkeyT]int{}, lat: common.NewRand(c.Seed)}
+	r := &rec{idx: map[dkeyT]int{}, lat: common.NewRand(c.Seed), fast: c.Fast, slow: c.Slow}
 	for _, n := range g.Nodes {
 		if _, dup := r.idx[keyOf(n.Desc)]; dup {
 			res.SetupErr = fmt.Errorf("generator produced two nodes with the same descriptor (node %d)", n.ID)
@@ -612,13 +651,21 @@ func Execute(c *Case) *Result {
 			return nil
 		}
 	}
-	gopts := oras.CopyGraphOptions{
-		Concurrency:   c.K,
-		PreCopy:       cb("pre"),
-		PostCopy:      cb("post"),
-		OnCopySkipped: cb("skip"),
-		OnMounted:     cb("mounted"),
-		MountFrom: func(_ context.Context, d ocispec.Descriptor) ([]string, error) {
+	gopts := oras.CopyGraphOptions{Concurrency: c.K}
+	if c.CbIsSet("pre") {
+		gopts.PreCopy = cb("pre")
+	}
+	if c.CbIsSet("post") {
+		gopts.PostCopy = cb("post")
+	}
+	if c.CbIsSet("skip") {
+		gopts.OnCopySkipped = cb("skip")
+	}
+	if c.CbIsSet("mounted") {
+		gopts.OnMounted = cb("mounted")
+	}
+	if c.CbIsSet("mountfrom") {
+		gopts.MountFrom = func(_ context.Context, d ocispec.Descriptor) ([]string, error) {
 			n := r.node(d)
 			if c.FailCb == "mountfrom" && c.FailNode == n {
 				r.ev(fmt.Sprintf("CF.mountfrom.%d", n), 0, 0)
@@ -633,11 +680,23 @@ func Execute(c *Case) *Result {
 			k := r.lat.Intn(4)
 			r.lmu.Unlock()
 			return []string{"repo/a", "repo/b", "repo/c"}[:min(k, 3)], nil
-		},
+		}
+	}
+	if c.FindSucc {
+		gopts.FindSuccessors = func(ctx context.Context, f content.Fetcher, d ocispec.Descriptor) ([]ocispec.Descriptor, error) {
+			return content.Successors(ctx, f, d)
+		}
 	}
 
 	runCopy := func() {
 		switch c.Mode {
+		case "x", "X":
+			xo := oras.ExtendedCopyOptions{ExtendedCopyGraphOptions: oras.ExtendedCopyGraphOptions{CopyGraphOptions: gopts}}
+			if c.Mode == "x" {
+				res.Err = oras.ExtendedCopyGraph(ctx, srcWG{sw}, dw, g.Nodes[c.Root].Desc, xo.ExtendedCopyGraphOptions)
+			} else {
+				res.Returned, res.Err = oras.ExtendedCopy(ctx, srcWG{sw}, c.SrcRef, dw, c.DstRef, xo)
+			}
 		case "g":
 			var d content.Storage = dw
 			if c.Mount {
@@ -653,7 +712,11 @@ func Execute(c *Case) *Result {
 				}
 			}
 			if c.Platform != "" {
-				opts.WithTargetPlatform(&ocispec.Platform{Architecture: c.Platform, OS: "linux"})
+				tp := &ocispec.Platform{Architecture: c.Platform, OS: "linux", Variant: c.PlatVar}
+				if c.PlatFeat != "" {
+					tp.OSFeatures = []string{c.PlatFeat}
+				}
+				opts.WithTargetPlatform(tp)
 			}
 			if inner := opts.MapRoot; inner != nil {
 				opts.MapRoot = func(ctx context.Context, s content.ReadOnlyStorage, d ocispec.Descriptor) (ocispec.Descriptor, error) {
@@ -728,7 +791,7 @@ func Execute(c *Case) *Result {
 		rc.Close()
 		res.BytesOK[n.ID] = err == nil && bytes.Equal(b, n.Bytes)
 	}
-	if c.Mode != "g" {
+	if c.Mode != "g" && c.Mode != "x" {
 		d, err := dst.Resolve(ctx, c.EffRef())
 		if err == nil {
 			res.TagNode = r.node(ocispec.Descriptor{MediaType: d.MediaType, Digest: d.Digest, Size: d.Size})
@@ -790,11 +853,69 @@ func ModelInput(res *Result) string {
 	d0 := append([]int(nil), c.D0...)
 	sort.Ints(d0)
 	mode := c.Mode
-	if c.Mount {
+	rootField := fmt.Sprint(root)
+	if c.Mode == "x" || c.Mode == "X" {
+		// ExtendedCopy(Graph): copyGraph runs from every root above the node, sharing tracker, proxy and
+		// limiter (the model's c_xroots); the final Tag of ExtendedCopy is outside the transition system
+		mode = "g"
+		var rs []string
+		for _, n := range g.Nodes {
+			if !n.Foreign() && len(g.Preds(n.ID)) == 0 && g.Reach(n.ID)[c.Root] {
+				rs = append(rs, fmt.Sprint(n.ID))
+			}
+		}
+		rootField = strings.Join(rs, "+")
+		if c.Mode == "X" && len(res.Toks) >= 3 {
+			k := len(res.Toks)
+			if res.Toks[k-3] == fmt.Sprintf("TB.%d", c.Root) && res.Toks[k-2] == fmt.Sprintf("TE.%d", c.Root) {
+				tr = strings.Join(append(append([]string(nil), res.Toks[:k-3]...), res.Toks[k-1]), ",")
+			}
+		}
+	}
+	if c.Mounting() {
 		mode += "m"
 	}
-	return fmt.Sprintf("%d %d %s %d %s %s %s %s rp=%s:%d:%d:%d", len(g.Nodes), c.K, mode, root, ints(cached0),
-		strings.Join(nodes, ";"), ints(d0), tr, c.Stream, c.GenSeed, b2i(c.Thorough), c.Seed)
+	mode += "/" + c.cbBits()
+	return fmt.Sprintf("%d %d %s %s %s %s %s %s %srp=%s:%d:%d:%d", len(g.Nodes), c.K, mode, rootField, ints(cached0),
+		strings.Join(nodes, ";"), ints(d0), tr, platformField(c, g), c.Stream, c.GenSeed, b2i(c.Thorough), c.Seed)
+}
+
+var archID = map[string]int{"": 0, "amd64": 1, "arm64": 2}
+
+// platformField renders WithTargetPlatform's input for the model: the wanted platform and the
+// index entries (node, architecture, OS) in manifest order, strings abstracted to numbers.
+func platformField(c *Case, g *dag.Graph) string {
+	if c.Platform == "" {
+		return ""
+	}
+	root := c.Root
+	if c.MapRoot >= 0 {
+		root = c.MapRoot
+	}
+	n := g.Nodes[root]
+	if n.Kind != dag.KIndex && n.Kind != dag.KDockerL {
+		return ""
+	}
+	var ix struct {
+		Manifests []ocispec.Descriptor `json:"manifests"`
+	}
+	if json.Unmarshal(n.Bytes, &ix) != nil {
+		return ""
+	}
+	var es []string
+	for i, m := range ix.Manifests {
+		id := n.Succ[len(n.Succ)-len(ix.Manifests)+i]
+		if m.Platform == nil {
+			es = append(es, fmt.Sprintf("%d.-.0", id))
+		} else {
+			es = append(es, fmt.Sprintf("%d.%d.%d", id, archID[m.Platform.Architecture], 1))
+		}
+	}
+	feat := "-"
+	if c.PlatFeat != "" {
+		feat = "1"
+	}
+	return fmt.Sprintf("pl=%d.1.0.%d.%s@%s ", archID[c.Platform], b2i(c.PlatVar != ""), feat, strings.Join(es, ","))
 }
 
 func b2i(b bool) int {
@@ -815,6 +936,26 @@ func ints(xs []int) string {
 	return strings.Join(s, ",")
 }
 
+// implSel: what WithTargetPlatform selected, as far as the implementation shows it (the node Copy
+// returned; "-" when Copy failed before copying).
+func implSel(res *Result) string {
+	if platformField(res.Case, res.G) == "" {
+		return ""
+	}
+	if res.Err != nil && len(res.Toks) == 1 {
+		return " sel=-"
+	}
+	if res.Err != nil {
+		return fmt.Sprintf(" sel=%d", res.Root2) // failed later (injected fault): the selection is not observable
+	}
+	for _, n := range res.G.Nodes {
+		if n.Desc.Digest == res.Returned.Digest && n.Desc.MediaType == res.Returned.MediaType {
+			return fmt.Sprintf(" sel=%d", n.ID)
+		}
+	}
+	return " sel=?"
+}
+
 // ImplObs is the implementation's projected observable, same shape as the model's line.
 func ImplObs(res *Result) string {
 	ret := "0"
@@ -822,7 +963,7 @@ func ImplObs(res *Result) string {
 		ret = "1"
 	}
 	tag := "-"
-	if res.Case.Mode != "g" && res.TagNode >= 0 {
+	if (res.Case.Mode == "t" || res.Case.Mode == "r") && res.TagNode >= 0 {
 		tag = fmt.Sprint(res.TagNode)
 	}
 	var present []int
@@ -841,5 +982,5 @@ func ImplObs(res *Result) string {
 	if res.Err == nil {
 		gauges = fmt.Sprintf("ms=%d md=%d", res.SrcMax, res.DstMax)
 	}
-	return fmt.Sprintf("ACC ret=%s tag=%s dst=%s cr=%s %s", ret, tag, ints(present), cr, gauges)
+	return fmt.Sprintf("ACC ret=%s tag=%s dst=%s cr=%s %s%s", ret, tag, ints(present), cr, gauges, implSel(res))
 }
